@@ -1,9 +1,11 @@
 import TFV.Properties.EA
 import TFV.Properties.Heap
 import TFV.Properties.Src.Engine
+import TFV.Properties.Src.Elitism
 #print axioms TFV.EA.C01_best_is_max
 #print axioms TFV.EA.C01_final
 #print axioms TFV.Heap.C01_private_copy
 #print axioms TFV.Heap.C01_alias_counterexample
 #print axioms TFV.SrcTie.C01_src_thefittest_replace
 #print axioms TFV.SrcTie.C01_src_thefittest_update
+#print axioms TFV.SrcTie.C01_src_thefittest_get
